@@ -322,6 +322,58 @@ def run_real(spec):
         consistent("after concurrent makegateway")
         res.count("real_gateways", len(made))
         res.case(core.h64("real-concurrent", tuple(sorted(gw.id for gw in made))))
+        # overlapping makegateway calls for one id (the same explicit id twice; an explicit gwN against the automatic gwN):
+        # one of them gets the id, the other is refused with ValueError, and whatever the loser started is gone
+        import os
+
+        def worker_pids():
+            out = set()
+            for name in os.listdir("/proc"):
+                if name.isdigit():
+                    try:
+                        with open(f"/proc/{name}/stat") as f:
+                            st = f.read()
+                        if int(st.rsplit(")", 1)[1].split()[1]) == os.getpid() and st.rsplit(")", 1)[1].split()[0] != "Z":
+                            out.add(int(name))
+                    except (OSError, ValueError, IndexError):
+                        pass
+            return out
+
+        for rnd, pair in enumerate((("popen//id=same%d", "popen//id=same%d"), ("popen//id=gw%d", "popen"))):
+            n_auto = g._autoidcounter
+            specs = [p_ % (n_auto if "gw" in p_ else rnd) if "%d" in p_ else p_ for p_ in pair]
+            outs: list = []
+            go = threading.Barrier(2)
+            children_before = worker_pids()
+
+            def make(sp):
+                try:
+                    go.wait(10)
+                    outs.append(("ok", g.makegateway(sp)))
+                except BaseException as e:  # noqa
+                    outs.append((type(e).__name__, str(e)[:100]))
+
+            ths = [threading.Thread(target=make, args=(sp,)) for sp in specs]
+            for t in ths:
+                t.start()
+            for t in ths:
+                t.join(60)
+            oks = [o[1] for o in outs if o[0] == "ok"]
+            bad = [o for o in outs if o[0] not in ("ok", "ValueError")]
+            res.count("overlapping_makegateway_pairs")
+            res.case(core.h64("real-overlap", rnd))
+            if bad:
+                res.violation("overlapping-makegateway-wrong-exception:" + bad[0][0], f"{specs}: {outs!r}")
+            if len({gw.id for gw in oks}) != len(oks):
+                res.violation("live-gateways-share-id", f"{specs}: both calls returned a gateway with id {oks[0].id}")
+            consistent(f"after overlapping makegateway {specs}")
+            # every child started meanwhile belongs to a member of the group
+            time.sleep(0.3)
+            extra = worker_pids() - children_before
+            if len(extra) != len(oks):
+                res.violation("failed-makegateway-left-process:overlapping", f"{specs}: {len(oks)} gateways were handed out but {len(extra)} new child processes are alive: {outs!r}")
+                for pid_ in extra:
+                    pass
         # explicit id colliding with a live one must be refused and change nothing
         live = rng.choice(list(g)).id
         before = [gw.id for gw in g]
